@@ -695,3 +695,51 @@ Proof.
   rewrite !operation_iter_length. cbn [measure_statistic st_ops_total st_ops_selected].
   rewrite !offered_eq_filter, !selected_entries_http, !entries_strip. repeat split; reflexivity.
 Qed.
+
+(* ------------------------------------------------------------------------------------------------ *)
+(* FilterArguments.into: the filter set is exactly the filters of the calls, in order                *)
+Fixpoint calls_filters (inc : bool) (cs : list (bool * add_args)) : list flt :=
+  match cs with
+  | [] => []
+  | (i, a) :: r =>
+      (if Bool.eqb i inc then match matchers_of a with Some ms => [ms] | None => [] end else []) ++ calls_filters inc r
+  end.
+
+Lemma add_all_spec cs : forall fs fs',
+  add_all cs fs = Added fs' ->
+  fs_includes fs' = fs_includes fs ++ calls_filters true cs /\
+  fs_excludes fs' = fs_excludes fs ++ calls_filters false cs.
+Proof.
+  induction cs as [|[inc a] r IH]; intros fs fs' H; cbn [add_all] in H.
+  - inversion H. cbn. rewrite !app_nil_r. split; reflexivity.
+  - destruct (add_filter inc a fs) as [fs1|] eqn:E; [|discriminate].
+    destruct (add_filter_spec _ _ _ _ E) as [ms [Hm [_ [_ [_ Hfs]]]]].
+    destruct (IH _ _ H) as [Hi He]. cbn [calls_filters]. rewrite Hm, Hi, He. subst fs1.
+    destruct inc; cbn [fs_includes fs_excludes Bool.eqb app]; rewrite <- ?app_assoc; split; reflexivity.
+Qed.
+
+Lemma cli_into_spec a fs c :
+  cli_into a = CliOk fs ->
+  (fs_match fs c = true <->
+   (calls_filters true (cli_calls a) = [] \/ exists f, In f (calls_filters true (cli_calls a)) /\ filter_matches f c) /\
+   (forall f, In f (calls_filters false (cli_calls a)) -> ~ filter_matches f c)).
+Proof.
+  unfold cli_into. destruct (forallb nodup_strs _); [|discriminate].
+  destruct (add_all (cli_calls a) fs_empty) as [fs1|] eqn:E; [|discriminate].
+  intros H. inversion H; subst fs1. destruct (add_all_spec _ _ _ E) as [Hi He]. cbn [fs_empty fs_includes fs_excludes app] in Hi, He.
+  rewrite match_spec, Hi, He. reflexivity.
+Qed.
+
+(* the include regexes of the command line form ONE conjunctive filter, the exclude regexes one filter each *)
+Example cli_regexes :
+  let rp := rx_of [94;47;97]%N (RxPrefix [47;97]%N) in
+  let rm := rx_of [94;103;101;116;36]%N (RxExact [103;101;116]%N) in
+  let none := {| cl_by := None; cl_name := []; cl_method := []; cl_path := []; cl_tag := []; cl_operation_id := [];
+                 cl_name_regex := None; cl_method_regex := None; cl_path_regex := None; cl_tag_regex := None;
+                 cl_operation_id_regex := None |} in
+  let both := {| cl_by := None; cl_name := []; cl_method := []; cl_path := []; cl_tag := []; cl_operation_id := [];
+                 cl_name_regex := None; cl_method_regex := Some rm; cl_path_regex := Some rp; cl_tag_regex := None;
+                 cl_operation_id_regex := None |} in
+  length (calls_filters true (cli_calls {| cli_include := both; cli_exclude := none; cli_exclude_deprecated := false |})) = 1 /\
+  length (calls_filters false (cli_calls {| cli_include := none; cli_exclude := both; cli_exclude_deprecated := true |})) = 3.
+Proof. vm_compute. split; reflexivity. Qed.
